@@ -385,3 +385,48 @@ def _sync_before(store, node, st, transfer):
     # statements are CFG nodes of their own: the in-state of the node is the state before the store unless the same statement also assigns
     # *pivrow (`perm_r[*pivrow = ..] = jcol` does not occur); evaluate the statement's own effects first to be safe
     return all(sy for (sy, up) in transfer(node.ast, st)) if any(y.k == 'Assign' and y is not store for y in node.ast.walk()) else all(sy for (sy, up) in st)
+
+
+def ilu_threshold_guard_rule(chk, cid, prog, p, cfgname):
+    """ilu_?pivotL prefers the remembered pivot and then the diagonal when their magnitude passes the threshold u * max.  With u = 0 (a legal
+    DiagPivotThresh) the threshold is 0, so the magnitude test alone also accepts an entry that is exactly zero although the column has
+    non-zero candidates: U gets a zero on its diagonal and L infinities, with info = 0.  Each assignment `pivptr = old_pivptr` / `pivptr = diag`
+    must be guarded by `mag != 0 && mag >= thresh` on the very magnitude variable."""
+    from ..run import AnalysisBroken
+    f = prog.func('ilu_' + p + 'pivotL')
+    if f is None:
+        raise AnalysisBroken('ilu_%spivotL not found' % p)
+    chk.saw(unit=f.unit, func=f.unit + ':' + f.name)
+    n = 0
+    for x in f.body.walk():
+        if x.k != 'If':
+            continue
+        th = x.c[1]
+        while th.k == 'Block' and len(th.c) == 1:
+            th = th.c[0]
+        if not (th.k == 'Assign' and strip(th.c[0]).k == 'Ref' and strip(th.c[0]).a.get('name') == 'pivptr' and strip(th.c[1]).k == 'Ref'
+                and strip(th.c[1]).a.get('name') in ('old_pivptr', 'diag')):
+            continue
+        n += 1
+        atoms = []
+
+        def conj(e):
+            e = strip(e)
+            if e.k == 'Binary' and e.a['op'] == '&&':
+                conj(e.c[0]); conj(e.c[1])
+            else:
+                atoms.append(e)
+        conj(x.c[0])
+        ge = [a for a in atoms if a.k == 'Binary' and a.a['op'] in ('>=', '>') and strip(a.c[0]).k == 'Ref' and strip(a.c[1]).k == 'Ref' and strip(a.c[1]).a.get('name') == 'thresh']
+        nz = [a for a in atoms if a.k == 'Binary' and a.a['op'] == '!=' and strip(a.c[0]).k == 'Ref' and fzero(a.c[1])]
+        inst = '%s:candidate-%s-needs-nonzero-and-threshold' % (f.name, strip(th.c[1]).a.get('name'))
+        if ge and nz and strip(ge[0].c[0]).a.get('id') == strip(nz[0].c[0]).a.get('id'):
+            chk.ok(cid, inst, sample=pretty(x.c[0])[:60])
+        else:
+            chk.violate(cid, inst, loc(f, x), f.name,
+                        '`%s` becomes the pivot under `%s`: the guard must be `mag != 0 && mag >= thresh` on its own magnitude - with DiagPivotThresh = 0 the '
+                        'threshold is 0 and an exactly zero entry is accepted while the column has non-zero candidates' % (strip(th.c[1]).a.get('name'), pretty(x.c[0])[:60]),
+                        cfgname=cfgname)
+    if n < 2:
+        raise AnalysisBroken('%s: %d guarded pivot candidates found, expected 2' % (f.name, n))
+    return n
